@@ -83,6 +83,8 @@ class RF24:
         open_pipes = self._reg_read(2)
         if open_pipes & (1 << pipe_num):
             self._reg_write(2, open_pipes & ~(1 << pipe_num))
+        if not pipe_num:
+            self._pipe0_read_addr = None
 
     def open_rx_pipe(self, pipe_num, addr):
         if not 0 <= pipe_num <= 5:
